@@ -31,6 +31,12 @@ def jobs_for(tier):
                 for mix in ("sua", "inc"):
                     jobs.append(("props.c18_xh", "h_opt", t, {"kind": "%s/%s" % (srt, g), "w": w, "strategy": strat, "mixin": mix,
                                                               "mode": "single", "name": "opt/%s%s/%s/%s/%s" % (srt, w or "", g, strat, mix)}))
+        if tier == "quick" and srt == "bvsigned":
+            # the remaining goal kinds, two (strategy, mixin) combinations each
+            for g in ("maxmin", "max-negx", "min-x+y"):
+                for strat, mix in (("linear", "sua"), ("binary", "inc")):
+                    jobs.append(("props.c18_xh", "h_opt", t, {"kind": "%s/%s" % (srt, g), "w": w, "strategy": strat, "mixin": mix,
+                                                              "mode": "single", "name": "opt/%s%s/%s/%s/%s" % (srt, w or "", g, strat, mix)}))
         for g in multis:
             for mix in ("sua", "inc"):
                 for strat in ("linear", "binary"):
